@@ -36,6 +36,9 @@ def run(ctx):
     check_get_identifiers(ctx, V)
     check_get_parameters(ctx)
     check_case_typed(ctx, V)
+    from .. import rules_tree as RT2
+    ctx.rule('R13.5', 'grouping is total: no size/depth cut-off in the drivers and passes this property relies on', floor=1)
+    RT2.check_no_cutoff(ctx, 'R13.5', only={'_group', 'group_where', 'group_identifier_list', 'group_functions', 'group_comparison', 'group_typed_literal', '_group_matching'})
 
 
 def check_where(ctx, V):
